@@ -50,6 +50,9 @@ def run(ctx, res):
     res.rule = ("archives and source lists of C01/C02/C07 x {create, add, list, extract} x {quiet, verbose}; every printed name, count, "
                 "plural, size, block count and percentage is compared with the independent decoding; non-trivial = at least one file")
     rng = ctx.rng
+    # past failures first (F18): names and extensions longer than the catalog fields, reported as stored
+    tape_case(ctx, res, [("a.data", b"x" * 300), ("verylongnamenoext", b""), ("longfilename.bas", b"10 REM\n"), ("ninechars.csvx", b"1;2\n")])
+    tape_case(ctx, res, [("x.basic", b"y" * 254)])
     for i in range(ctx.n(40, 600)):
         used = set()
         files = [(T.gen_name(rng, used), T.content_for(rng, rng.choice(T.SIZES + [rng.randint(0, 2000)]))) for _ in range(rng.choice([0, 1, 2, 5]))]
